@@ -514,7 +514,7 @@ func (fx *FnExec) step(st *State, fr *frame, ins ssa.Instruction) bool {
 	case *ssa.MakeMap:
 		r := st.freshRef("map")
 		mt := x.Type().Underlying().(*types.Map)
-		ks, vs := fx.sortOf(mt.Key()), fx.sortOf(mt.Elem())
+		ks, vs := fx.mapKV(mt)
 		in := mapInName(ks, vs)
 		ins := "(Array Int (Array " + ks + " Bool))"
 		st.heapSet(in, ins, "(store "+st.heapGet(in, ins)+" "+r+" ((as const (Array "+ks+" Bool)) false))")
@@ -530,6 +530,8 @@ func (fx *FnExec) step(st *State, fr *frame, ins ssa.Instruction) bool {
 		st.ghostStore("chanlen", "Int", r, "0")
 		st.ghostStore("chanclosed", "Bool", r, "false")
 		st.ghostStore("chansends", "Int", r, "0")
+		fx.declare("chan.type", "(declare-const chan.type (Array Int Int))")
+		st.assume(fmt.Sprintf("(= (select chan.type %s) %d)", r, fx.typeID(x.Type().Underlying().(*types.Chan).Elem())))
 		st.vals[x] = r
 	case *ssa.MakeClosure:
 		r := st.freshRef("clos")
@@ -541,6 +543,7 @@ func (fx *FnExec) step(st *State, fr *frame, ins ssa.Instruction) bool {
 		}
 		st.clos[r] = ci
 		st.vals[x] = r
+		fx.closureCaptures(st, fr, x, ci)
 	case *ssa.Slice:
 		fx.doSlice(st, fr, x)
 	case *ssa.TypeAssert:
@@ -720,7 +723,7 @@ func (fx *FnExec) doLookup(st *State, fr *frame, x *ssa.Lookup) {
 	kv := st.val(x.Index)
 	if mt, ok := x.X.Type().Underlying().(*types.Map); ok {
 		fx.locksetMap(st, fr, x.X, x)
-		ks, vs := fx.sortOf(mt.Key()), fx.sortOf(mt.Elem())
+		ks, vs := fx.mapKV(mt)
 		in := "(select (select " + st.heapGet(mapInName(ks, vs), "(Array Int (Array "+ks+" Bool))") + " " + xv + ") " + kv + ")"
 		val := "(select (select " + st.heapGet(mapValName(ks, vs), "(Array Int (Array "+ks+" "+vs+"))") + " " + xv + ") " + kv + ")"
 		in = "(and (not (= " + xv + " 0)) " + in + ")"
@@ -746,7 +749,10 @@ func (fx *FnExec) doMapUpdate(st *State, fr *frame, x *ssa.MapUpdate) {
 	if _, ok := x.Map.(*ssa.MakeMap); !ok {
 		fx.emit(st, fr, "map-nil", fx.ord(fr.fn, x, "mapupdate"), "(not (= "+m+" 0))", nil, "")
 	}
-	st.mapStore(m, fx.sortOf(mt.Key()), fx.sortOf(mt.Elem()), k, v)
+	{
+		ks, vs := fx.mapKV(mt)
+		st.mapStore(m, ks, vs, k, v)
+	}
 }
 
 func (st *State) mapStore(m Term, ks, vs string, k, v Term) {
@@ -1191,7 +1197,7 @@ func (fx *FnExec) doTypeAssert(st *State, fr *frame, x *ssa.TypeAssert) {
 func (fx *FnExec) doRange(st *State, fr *frame, x *ssa.Range) {
 	switch u := x.X.Type().Underlying().(type) {
 	case *types.Map:
-		ks, vs := fx.sortOf(u.Key()), fx.sortOf(u.Elem())
+		ks, vs := fx.mapKV(u)
 		fx.locksetMap(st, fr, x.X, x)
 		vis := fx.freshConst("visited", "(Array "+ks+" Bool)")
 		st.assume("(= " + vis + " ((as const (Array " + ks + " Bool)) false))")
@@ -1336,4 +1342,25 @@ func (fx *FnExec) doSelect(st *State, fr *frame, x *ssa.Select) {
 		}
 	}
 	st.tups[x] = tup
+}
+
+
+// closureCaptures: `captures` clauses of a closure's contract are facts about
+// the captured values, checked where the closure is created.
+func (fx *FnExec) closureCaptures(st *State, fr *frame, x *ssa.MakeClosure, ci *closureInfo) {
+	key := fnKey(ci.fn)
+	cs := fx.P.Specs.Funcs[key]
+	if len(cs) == 0 || len(cs[0].Captures) == 0 {
+		return
+	}
+	fc := cs[0]
+	tgt := callTarget{fn: ci.fn, fc: fc, key: key, closure: ci}
+	env := fx.contractEnv(st, tgt, ci.fn.Signature, nil, &callArgs{})
+	for i, c := range fc.Captures {
+		v, err := env.safeEval(c.Expr)
+		if err != nil {
+			panic(fmt.Sprintf("%s:%d: %v", c.File, c.Line, err))
+		}
+		fx.emit(st, fr, "captures", ci.fn.Name()+"/"+clauseName(c, i), v.t, c.Props, c.Src)
+	}
 }
